@@ -51,13 +51,24 @@ class Measurement(object):
     def from_str_list(cls, id_to_run_id: list[RunId], str_list, line_number=None, filename=None):
         invocation = int(str_list[0])
         iteration = int(str_list[1])
-        value = float(str_list[2])
+        value = cls._value_from_str(str_list[2])
         unit = str_list[3]
         criterion = str_list[4]
         run_id = RunId.from_str_list(id_to_run_id, str_list[5:])
 
         return Measurement(invocation, iteration, value, unit, run_id,
                            criterion, line_number, filename)
+
+    @staticmethod
+    def _value_from_str(text):
+        # a boolean value, as the ValidationLog adapter reports it for 'Success',
+        # is written as True or False
+        if text == "True":
+            return True
+        if text == "False":
+            return False
+        return float(text)
+
     @classmethod
     def get_column_headers(cls):
         run_id_headers = RunId.get_column_headers()
